@@ -80,6 +80,10 @@ def soups(ctx, n, salt="soup"):
                         else:
                             j = rnd.randrange(len(parts)); parts[i], parts[j] = parts[j], parts[i]
                 text = " ".join(parts)
+            if rnd.random() < 0.15:
+                # a comment opener / closer of ANOTHER language at an arbitrary place
+                i = rnd.randint(0, len(text))
+                text = text[:i] + rnd.choice(FOREIGN_OPENERS) + text[i:]
             out.append((lang, text))
         elif r < 0.93:
             lang = rnd.choice(LANGS)
@@ -224,6 +228,8 @@ def ladder_programs(ctx, single, many, salt="ladder", many_python=None):
 
 # ---- one very long line -------------------------------------------------------------------------------------------
 
+FOREIGN_OPENERS = ["<!--", "-->", "#", "--", "%", "(*", "*)", "{-", "-}", ";", "REM ", "'", "=begin", "=end", "<#", "#>", "--[[", "]]",
+                   '"""', "'''", "//", "/*", "*/", "<%--", "--%>", "@", "!", "#!", "<?", "?>", "{#", "#}", "|#", "#|", "\\"]
 LONG_SHAPES = ("literal", "comment", "tokens", "fn")
 LONG_LAYOUTS = ("alone", "alone-newline", "second-line")
 
@@ -355,4 +361,376 @@ def decorate(ctx, cases, share=0.15, salt="decor", limit=20000):
             if spots:
                 i = rnd.choice(spots)
                 out.append((lang, text[:i] + rnd.choice(SEPARATORS + BLANKS) + text[i + 1:]))
+    return out
+
+
+# ------------------------------------------------------------------------------------------------------------------
+# round 5: comment texts in the syntax of MANY languages, names that are keywords elsewhere, the column ladder,
+# time-limited analysis
+# ------------------------------------------------------------------------------------------------------------------
+
+# comment openers / closers of languages OTHER than the one being lexed (FOREIGN_OPENERS): legal anywhere in a malformed text
+for _fam in LEX_ALPHABET.values():
+    _fam.extend(x for x in FOREIGN_OPENERS if x not in _fam)
+
+SIGILS = ["@", "$", "#", "%", "&", "!", "?", "~", "^", ":", "::", "->", "=>", ":=", "<-", "|", "`", "@@", "$$", "\\", "-", "--", "+"]
+BRACKETS = [("[", "]"), ("(", ")"), ("{", "}"), ("<", ">"), ("[[", "]]"), ("{{", "}}"), ("<%", "%>"), ("${", "}"), ("@[", "]"), ("«", "»")]
+RULERS = "-=*#~_.+/"
+_kw_cache = {}
+
+
+def _lexer_words(cls):
+    """identifier-like words in the token tables of a Pygments RegexLexer class (keywords, builtins, directives such as
+    `@interface`): from `words(...)` rules and from the alternations of plain patterns"""
+    import re
+    from pygments.lexer import words as pyg_words
+    out = set()
+    for k in cls.__mro__:
+        toks = k.__dict__.get("tokens")
+        if not isinstance(toks, dict):
+            continue
+        for rules in toks.values():
+            for rule in rules:
+                if not isinstance(rule, tuple) or not rule:
+                    continue
+                pat = rule[0]
+                if isinstance(pat, pyg_words):
+                    out.update(w for w in pat.words if isinstance(w, str))
+                    if isinstance(pat.prefix, str) and pat.prefix in ("@", "#", "$", "%"):
+                        out.update(pat.prefix + w for w in pat.words if isinstance(w, str))
+                elif isinstance(pat, str) and "|" in pat:
+                    out.update(re.findall(r"[@#$]?[A-Za-z_][A-Za-z_]{1,15}", pat))
+    return {w for w in out if 2 <= len(w) <= 18 and "\n" not in w}
+
+
+def foreign_words():
+    """words of the languages whose lexers Pygments could pick for a file name of a supported language (the supported
+    ones and every competitor for the same file-name pattern: Objective-C for `*.h`, ...)"""
+    if "foreign" not in _kw_cache:
+        from pygments.lexers import find_lexer_class
+        from gen import names as gnames
+        lexers = set(gnames.supported_lexer_names())
+        for (_, _, others) in gnames.language_file_names():
+            lexers.update(others)
+        ws = set()
+        for n in sorted(lexers):
+            cls = find_lexer_class(n)
+            if cls is not None:
+                ws |= _lexer_words(cls)
+        _kw_cache["foreign"] = sorted(ws)
+    return _kw_cache["foreign"]
+
+
+def dictionary_words():
+    """(novel, all) string literals of the code under check usable inside a comment; regular expressions of the source
+    contribute their literal runs"""
+    import re
+    from gen import srcdict
+    novel = list(srcdict.words(novel_only=True))
+    for rx in srcdict.novel_regexes():
+        novel += re.findall(r"[A-Za-z][A-Za-z-]{2,}", rx)
+    return novel, srcdict.words()
+
+
+def regex_pump_texts(rnd, k=40):
+    """comment texts aimed at the regular expressions of the code under check: literal runs of each expression mixed with
+    long runs of each of its characters (srcdict.regex_pumps), novel expressions first.  Empty while the source has no
+    expression that is applied to file content (on the pinned tree: none)."""
+    import re
+    from gen import srcdict
+    out = []
+    for rx in srcdict.novel_regexes():
+        lits = re.findall(r"[A-Za-z][A-Za-z-]{2,}", rx) or ["x"]
+        pumps = srcdict.regex_pumps(rx, reps=(26, 34, 60))
+        for _ in range(k):
+            parts = [rnd.choice(pumps + lits) for _ in range(rnd.randint(2, 4))]
+            if not any(p in lits for p in parts):
+                parts.insert(rnd.randrange(len(parts) + 1), rnd.choice(lits))
+            out.append(rnd.choice(["", " "]).join(parts) if rnd.random() < 0.2 else " ".join(parts))
+    return out
+
+
+def comment_text(rnd, forbid=()):
+    """a comment text put together from the syntax of many languages: sigil-prefixed words (`@end`, `$x`, `#pragma`),
+    quoted and sigil-quoted strings (`@"none"`), bracketed word groups (`[section two]`, `{{ x }}`, `<T>`), `a::b`,
+    foreign comment openers, rulers (runs of - = * ... on a geometric ladder of lengths), literals from the source
+    dictionary (novel ones with a high weight).  Never contains a line end, never ends with a backslash; `forbid`:
+    substrings that must not occur (`*/` inside a block comment)."""
+    fw = foreign_words()
+    novel, allw = dictionary_words()
+
+    def word():
+        r = rnd.random()
+        if novel and r < 0.3:
+            return rnd.choice(novel)
+        if r < 0.45 and allw:
+            return rnd.choice(allw)
+        if r < 0.8:
+            return rnd.choice(fw)
+        return rnd.choice(["note", "two", "section", "x", "fix", "me", "TODO", "see", "length", "out", "none", "é", "nocl"])
+    parts = []
+    for _ in range(rnd.randint(1, 4)):
+        k = rnd.random()
+        if k < 0.2:
+            parts.append(word())
+        elif k < 0.35:
+            parts.append(rnd.choice(SIGILS) + word())
+        elif k < 0.45:
+            q = rnd.choice(['"', "'", "`"])
+            parts.append(rnd.choice(SIGILS + ["", ""]) + q + word() + q)
+        elif k < 0.65:
+            a, b = rnd.choice(BRACKETS)
+            inner = rnd.choice([" ", " ", ": ", ", ", ":", "="]).join(word() for _ in range(rnd.randint(1, 3)))
+            parts.append(a + rnd.choice(["", " "]) + inner + rnd.choice(["", " "]) + b)
+        elif k < 0.75:
+            parts.append(word() + rnd.choice(["::", ":", ".", "->", "="]) + word())
+        elif k < 0.85:
+            parts.append(rnd.choice(FOREIGN_OPENERS) + rnd.choice(["", " "]) + word())
+        else:
+            parts.append(rnd.choice(RULERS) * rnd.choice([3, 10, 32, 100]))
+    text = " ".join(parts).replace("\n", " ").replace("\r", " ")
+    for f in forbid:
+        text = text.replace(f, " ")
+    return text.rstrip("\\").rstrip() or "note"
+
+
+def lookalike_texts(file_name, rnd, samples=1500):
+    """comment texts that make the file look like ANOTHER language to Pygments: for a file name that several lexers claim
+    (`*.h`: C and Objective-C, ...), the `comment_text` samples that a competing lexer's own content heuristic
+    (`analyse_text`, a Pygments function) rates above the rating of the lexer the name resolves to.  A directed draw from
+    the same legal input space (any comment text is legal); empty for names with a single claimant."""
+    key = ("lookalike", file_name.rsplit(".", 1)[-1] if "." in file_name else file_name)
+    if key not in _kw_cache:
+        import fnmatch
+        from pygments.lexers import get_all_lexers, find_lexer_class, get_lexer_for_filename
+        own = type(get_lexer_for_filename(file_name))
+        rivals = [find_lexer_class(n) for (n, _, pats, _) in get_all_lexers() if n != own.name and any(fnmatch.fnmatch(file_name, q) for q in pats)]
+        out = []
+        if rivals:
+            for _ in range(samples):
+                t = comment_text(rnd, forbid=("*/",))
+                try:
+                    if max(r.analyse_text(t) for r in rivals) > own.analyse_text(t):
+                        out.append(t)
+                except Exception:
+                    pass
+        _kw_cache[key] = out
+    return _kw_cache[key]
+
+
+def starts_with_marker(text):
+    """does a comment BODY (the text behind its leader) begin with the suppression marker, as the property reads it"""
+    return text.lstrip()[:4].lower() == "nocl"
+
+
+def foreign_comment(lang, rnd, trailing=False):
+    """a whole comment in a style of `lang` around `comment_text`; trailing comments never begin with the marker"""
+    if lang == "Python":
+        body = comment_text(rnd)
+        lead = rnd.choice(["# ", "#", "#: ", "## "])
+    elif rnd.random() < 0.5:
+        body = comment_text(rnd)
+        lead = rnd.choice(["// ", "//", "/// "])
+    else:
+        body = comment_text(rnd, forbid=("*/",))
+        if trailing and starts_with_marker(body):
+            body = "x " + body
+        return rnd.choice(["/* ", "/*", "/** "]) + body + " */"
+    if trailing and starts_with_marker(body):
+        body = "x " + body
+    return lead + body
+
+
+# ---- function names that are identifiers here and keywords elsewhere ------------------------------------------------
+
+_NAME_CONTEXTS = {
+    "C": ["int %s(int a) {\n}\n", "static struct s *%s(int a)\n{\n}\n"],
+    "C++": ["int %s(int a) {\n}\n", "class K {\n  virtual void %s(int a) {\n  }\n};\n", "template <typename T> T %s(int a) {\n}\n"],
+    "C#": ["class K {\n  public int %s(int a) {\n  }\n}\n", "class K {\n  public async Task %s(int a) {\n  }\n}\n"],
+    "Java": ["class K {\n  public int %s(int a) {\n  }\n}\n", "class K {\n  void %s(int a) throws E {\n  }\n}\n"],
+    "JavaScript": ["function %s(a) {\n}\n", "class K {\n  %s(a) {\n  }\n}\n", "const %s = (a) => {\n};\n", "class K {\n  static %s(a) {\n  }\n}\n", "async function %s(a) {\n}\n"],
+    "TypeScript": ["function %s(a: number): void {\n}\n", "class K {\n  %s(a: number) {\n  }\n}\n", "const %s = (a: number) => {\n};\n", "class K {\n  async %s(a: number): string {\n  }\n}\n"],
+    "Python": ["def %s(a):\n    pass\n", "class K:\n    async def %s(self):\n        pass\n"],
+}
+
+
+def is_identifier_in(lang, word):
+    """is `word` ONE identifier token of the language's Pygments lexer in every function-header context of the generator"""
+    from pygments.token import Name
+    key = ("ident", lang, word)
+    if key not in _kw_cache:
+        ok = word.isidentifier()
+        for ctx_text in _NAME_CONTEXTS[lang] if ok else []:
+            text = ctx_text % word
+            at = ctx_text.index("%s")
+            hit = [(tt, v) for (off, tt, v) in sr.lexer_for(lang).get_tokens_unprocessed(text) if off == at]
+            if not (hit and hit[0][1] == word and hit[0][0] in Name):
+                ok = False
+                break
+        _kw_cache[key] = ok
+    return _kw_cache[key]
+
+
+def cross_names(lang):
+    """function names for programs in `lang`: words from the token tables of the seven supported lexers that are an
+    identifier in `lang` and NOT an identifier for at least one other supported lexer (`type`, `number` in JavaScript vs
+    TypeScript; `new`, `delete` in C vs C++, ...).  Derived from Pygments alone."""
+    key = ("cross", lang)
+    if key not in _kw_cache:
+        from pygments.lexers import find_lexer_class
+        cand = set()
+        for l2 in LANGS:
+            cand |= {w for w in _lexer_words(type(sr.lexer_for(l2))) if w.isidentifier() and w.isascii()}
+        out = []
+        for w in sorted(cand):
+            if is_identifier_in(lang, w) and any(not is_identifier_in(l2, w) for l2 in LANGS if l2 != lang):
+                out.append(w)
+        _kw_cache[key] = out
+    return _kw_cache[key]
+
+
+def names_are_identifiers(lang, o, text=None):
+    """every function of the generated program is named by an identifier token of the language's lexer on its name line
+    (the canonical fragment speaks of NAMED functions; a pool word can be a keyword in a context the pool test missed)"""
+    from bisect import bisect_right
+    from pygments.token import Name
+    text = text if text is not None else o.text()
+    st = [0]
+    for ln in text.split("\n")[:-1]:
+        st.append(st[-1] + len(ln) + 1)
+    on_line = {}
+    for (off, tt, v) in sr.lexer_for(lang).get_tokens_unprocessed(text):
+        if tt in Name:
+            on_line.setdefault(bisect_right(st, off), set()).add(v)
+    return all(f.markable is None or f.name in on_line.get(f.markable, ()) for f in o.funcs)
+
+
+def named_program(lang, rnd, tries=6, pool_size=4, **kw):
+    """programs.generate with a name pool (cross-language keywords + two plain names, drawn with replacement: duplicate
+    names and overloads occur), re-drawn until every name is an identifier token where it stands"""
+    pool = cross_names(lang)
+    share = kw.pop("name_share", 0.6)
+    for _ in range(tries):
+        names = rnd.sample(pool, min(len(pool), pool_size)) + ["run", "get"]
+        o = programs.generate(lang, rnd, names=names, name_share=share, **kw)
+        if names_are_identifiers(lang, o):
+            return o
+    return programs.generate(lang, rnd, **kw)
+
+
+# ---- column ladder: a token pushed beyond column n -------------------------------------------------------------------
+
+WIDE_KINDS = ("comment", "blanks")
+
+
+def wide_program(desc):
+    """deterministic: the brace-language program described by {"language", "gen_seed", "chars", "kind"} with ONE of its code
+    lines pushed right by `chars` characters (a block comment `/*ccc...*/ ` or blanks in front of the line's code);
+    -> (text, expectation per token, 1-based number of the widened line) or None (Python: indentation is syntax)"""
+    import random
+    lang = desc["language"]
+    if lang == "Python":
+        return None
+    rnd = random.Random(desc["gen_seed"])
+    o = programs.generate(lang, rnd, size=rnd.randint(1, 3))
+    skip = set()
+    if lang in ("C", "C++"):
+        for f in o.funcs:
+            skip.update(f.extra_lines)       # inside a C / C++ parameter list the lexers' header rule decides (KF2)
+    headers = {f.start[0] for f in o.funcs if f.start}
+    ok = []
+    for i, segs in enumerate(o.lines, start=1):
+        code = "".join(t for (t, _, c) in segs if c).strip()
+        if code and not code.startswith("#") and i not in skip:
+            ok.append(i)
+    if not ok:
+        return None
+    hs = [i for i in ok if i in headers]
+    # lines that open a block shortly before another line opens one (the order of neighbouring blocks is at stake)
+    opens = {i for i in ok if "{" in "".join(t for (t, _, c) in o.lines[i - 1] if c)}
+    near = [i for i in sorted(opens) if (i + 1 in opens or i + 2 in opens)]
+    k = rnd.random()
+    ln = rnd.choice(near) if near and k < 0.5 else (rnd.choice(hs) if hs and k < 0.85 else rnd.choice(ok))
+    n = desc["chars"]
+    prefix = ("/*" + "c" * max(0, n - 5) + "*/ ") if desc.get("kind", "comment") == "comment" else " " * n
+    lines = ["".join(seg[0] for seg in l) for l in o.lines]
+    lines[ln - 1] = prefix + lines[ln - 1]
+    d = len(prefix)
+    exp = [(nm, sl, sc + (d if sl == ln else 0), el, ec + (d if el == ln else 0), v) for (nm, sl, sc, el, ec, v) in o.expected(programs.NESTING[lang])]
+    return "\n".join(lines) + "\n", exp, ln
+
+
+def wide_descs(ctx, sizes, per_size=1, salt="wide"):
+    """column ladder: for every size and every brace language `per_size` programs -> [desc]"""
+    rnd = ctx.rng(salt)
+    out = []
+    for n in sorted(set(sizes)):
+        for lang in LANGS:
+            if lang == "Python":
+                continue
+            for k in range(per_size):
+                out.append({"stream": "wide", "language": lang, "gen_seed": rnd.getrandbits(48), "chars": n, "kind": WIDE_KINDS[(k + n) % 2] if per_size > 1 else rnd.choice(WIDE_KINDS)})
+    return out
+
+
+def column_rungs(ctx, quick=(100, 1000, 10 ** 4, 10 ** 5), hi=2 * 10 ** 5):
+    """column ladder sizes: decades (thorough: half decades) + n-1, n, n+1, 2n around every integer the current source has
+    and the pinned source has not"""
+    from gen import srcdict
+    return sorted(set(ctx.pick(list(quick), rungs(100, hi))) | set(srcdict.novel_rungs(100, hi)))
+
+
+# ---- analysis under a time limit -----------------------------------------------------------------------------------------
+
+class _Hang(BaseException):
+    pass
+
+
+def _guarded_work(args):
+    import signal
+    import scan_real
+    chunk, limit = args
+
+    def on_alarm(sig, frm):
+        raise _Hang()
+    signal.signal(signal.SIGALRM, on_alarm)
+    out = []
+    for (lang, code) in chunk:
+        try:
+            signal.setitimer(signal.ITIMER_REAL, limit)
+            try:
+                r = scan_real.real_scan(lang, code)
+            finally:
+                signal.setitimer(signal.ITIMER_REAL, 0)
+        except _Hang:
+            r = "hang %g" % limit
+        out.append(r)
+    return out
+
+
+def guarded_scan_many(cases, limit, workers=16):
+    """scan_real.real_scan_many under a wall-clock limit per input: -> replies, "hang <limit>" where the analysis of ONE
+    input did not come back within `limit` seconds (interval timer in the worker; a worker that does not even react to the
+    timer is killed after its whole chunk's allowance and its inputs are reported as "hang")"""
+    from concurrent.futures import ProcessPoolExecutor, TimeoutError as FutTimeout
+    cases = list(cases)
+    if not cases:
+        return []
+    k = max(1, min(64, (len(cases) + workers * 4 - 1) // (workers * 4)))
+    chunks = [cases[i:i + k] for i in range(0, len(cases), k)]
+    ex = ProcessPoolExecutor(max_workers=min(workers, len(chunks)))
+    out = []
+    try:
+        futs = [ex.submit(_guarded_work, (c, limit)) for c in chunks]
+        for c, f in zip(chunks, futs):
+            try:
+                out += f.result(timeout=limit * len(c) + 120)
+            except FutTimeout:
+                out += ["hang %g" % limit] * len(c)
+                for p in list(getattr(ex, "_processes", {}).values()):
+                    p.kill()
+            except Exception as e:  # noqa   (a killed pool)
+                out += ["hang %g (worker lost: %s)" % (limit, type(e).__name__)] * len(c)
+    finally:
+        ex.shutdown(wait=False, cancel_futures=True)
     return out
